@@ -8,11 +8,15 @@ except ImportError:
     maptrie = None
 
 ID = "C17"
+# the trie part extracts its own model (Extract_C17T) when vlib/maptrie.py is present
+EXTRA_COQ_TARGETS = ["Extract_C17T"] if maptrie else []
 KINDS = ["h", "s"]
 
 
 def prebuild():
     maphs.build()
+    if maptrie and hasattr(maptrie, "prebuild"):
+        maptrie.prebuild()
 
 
 def cases(ctx):
